@@ -2,6 +2,8 @@ package main
 
 import (
 	"crypto/sha256"
+	"encoding/base64"
+	"encoding/hex"
 	"fmt"
 	"go/types"
 	"strings"
@@ -639,3 +641,160 @@ func registerCryptoIntrinsics(in *Interp) {
 }
 
 func sha256Sum(b []byte) [32]byte { return sha256.Sum256(b) }
+
+// ---- base64 with interning of symbolic payloads (DESIGN.md §2.6) ----
+
+const internPrefix = "SYMGO+INTERNED+"
+
+// intern returns a concrete id for a payload with symbolic bytes; payloads that are equal get the
+// same id (equality with every earlier payload of the same length is decided eagerly by forking).
+func (st *State) intern(payload []Value) int {
+	for i, p := range st.interned {
+		if len(p.B) != len(payload) {
+			continue
+		}
+		if st.decide(valsEq(payload, p.B)) {
+			return i
+		}
+	}
+	st.interned = append(st.interned[:len(st.interned):len(st.interned)], Str{B: append([]Value{}, payload...)})
+	return len(st.interned) - 1
+}
+
+func registerBase64Intrinsics(in *Interp) {
+	I := in.intrins
+	encOf := func(st *State, p Ptr) *base64.Encoding {
+		// the four standard encodings are distinguished by their global variable
+		for _, name := range []string{"StdEncoding", "URLEncoding", "RawStdEncoding", "RawURLEncoding"} {
+			g := st.in.prog.ImportedPackage("encoding/base64").Var(name)
+			if g == nil {
+				continue
+			}
+			v := st.load(Ptr{Obj: st.in.globalID(g)})
+			if gp, ok := v.(Ptr); ok && gp.Obj == p.Obj {
+				switch name {
+				case "StdEncoding":
+					return base64.StdEncoding
+				case "URLEncoding":
+					return base64.URLEncoding
+				case "RawStdEncoding":
+					return base64.RawStdEncoding
+				case "RawURLEncoding":
+					return base64.RawURLEncoding
+				}
+			}
+		}
+		return nil
+	}
+	I["(*encoding/base64.Encoding).EncodeToString"] = func(st *State, fr *Frame, a []Value, _ ssa.Value) (Value, int) {
+		enc := encOf(st, a[0].(Ptr))
+		if enc == nil {
+			return nil, hNo
+		}
+		src := a[1].(Slice)
+		if b, ok := st.concBytes(src); ok {
+			return done(Str{S: enc.EncodeToString(b)})
+		}
+		id := st.intern(st.sliceVals(src))
+		s := fmt.Sprintf("%s%06d+", internPrefix, id)
+		for len(s) < enc.EncodedLen(src.Len) {
+			s += "A"
+		}
+		return done(Str{S: s})
+	}
+	I["(*encoding/base64.Encoding).DecodeString"] = func(st *State, fr *Frame, a []Value, _ ssa.Value) (Value, int) {
+		enc := encOf(st, a[0].(Ptr))
+		s := a[1].(Str)
+		if enc == nil || s.B != nil {
+			return nil, hNo
+		}
+		if strings.HasPrefix(s.S, internPrefix) {
+			var id int
+			fmt.Sscanf(s.S[len(internPrefix):], "%06d", &id)
+			if id < 0 || id >= len(st.interned) {
+				return done(Tuple{Slice{}, st.mkError("illegal base64 data (dangling interned payload)")})
+			}
+			return done(Tuple{st.newSliceOf(st.interned[id].B, types.Typ[types.Uint8]), Iface{}})
+		}
+		b, err := enc.DecodeString(s.S)
+		if err != nil {
+			return done(Tuple{st.newByteSlice(b), st.mkError("illegal base64 data")})
+		}
+		return done(Tuple{st.newByteSlice(b), Iface{}})
+	}
+	I["encoding/hex.EncodeToString"] = func(st *State, fr *Frame, a []Value, _ ssa.Value) (Value, int) {
+		b, ok := st.concBytes(a[0].(Slice))
+		if !ok {
+			return nil, hNo
+		}
+		return done(Str{S: hex.EncodeToString(b)})
+	}
+
+	// ---- ML-DSA (filippo.io/mldsa): opaque keys, ideal deterministic signatures ----
+	const mldsaSigSize = 2420
+	I["(*filippo.io/mldsa.PrivateKey).Public"] = func(st *State, fr *Frame, a []Value, _ ssa.Value) (Value, int) {
+		t := st.in.prog.ImportedPackage("filippo.io/mldsa").Type("PublicKey").Type()
+		return done(Iface{T: types.NewPointer(t), V: a[0]})
+	}
+	I["(*filippo.io/mldsa.PrivateKey).PublicKey"] = func(st *State, fr *Frame, a []Value, _ ssa.Value) (Value, int) { return done(a[0]) }
+	I["(*filippo.io/mldsa.PublicKey).Parameters"] = func(st *State, fr *Frame, a []Value, _ ssa.Value) (Value, int) { return done(Ptr{}) }
+	I["filippo.io/mldsa.MLDSA44"] = func(st *State, fr *Frame, a []Value, _ ssa.Value) (Value, int) { return done(Ptr{}) }
+	I["(*filippo.io/mldsa.PublicKey).Bytes"] = func(st *State, fr *Frame, a []Value, _ ssa.Value) (Value, int) {
+		id, _ := keyID(a[0])
+		return done(st.newByteSlice([]byte(fmt.Sprintf("MLDSA44-public-key-%06d", id))))
+	}
+	I["(*filippo.io/mldsa.PublicKey).Equal"] = func(st *State, fr *Frame, a []Value, _ ssa.Value) (Value, int) {
+		x, _ := keyID(a[0])
+		y, ok := keyID(a[1])
+		return done(Bool{C: ok && x == y})
+	}
+	msgDigest := func(st *State, msg Slice) []byte {
+		d := st.hashOracle(st.sliceVals(msg))
+		return d[:]
+	}
+	I["(*filippo.io/mldsa.PrivateKey).Sign"] = func(st *State, fr *Frame, a []Value, _ ssa.Value) (Value, int) {
+		id, _ := keyID(a[0])
+		d := msgDigest(st, a[2].(Slice))
+		st.sigs = append(st.sigs[:len(st.sigs):len(st.sigs)], sigEntry{id, string(d)})
+		return done(Tuple{st.newByteSlice(pseudoSig(id, d, mldsaSigSize)), Iface{}})
+	}
+	I["(*filippo.io/mldsa.PrivateKey).SignDeterministic"] = func(st *State, fr *Frame, a []Value, _ ssa.Value) (Value, int) {
+		id, _ := keyID(a[0])
+		d := msgDigest(st, a[1].(Slice))
+		st.sigs = append(st.sigs[:len(st.sigs):len(st.sigs)], sigEntry{id, string(d)})
+		return done(Tuple{st.newByteSlice(pseudoSig(id, d, mldsaSigSize)), Iface{}})
+	}
+	I["filippo.io/mldsa.Verify"] = func(st *State, fr *Frame, a []Value, _ ssa.Value) (Value, int) {
+		id, ok := keyID(a[0])
+		bad := st.mkError("mldsa: invalid signature")
+		if !ok {
+			return done(bad)
+		}
+		d := msgDigest(st, a[1].(Slice))
+		signed := false
+		for _, s := range st.sigs {
+			if s.key == id && s.digest == string(d) {
+				signed = true
+			}
+		}
+		if !signed {
+			return done(bad)
+		}
+		want := st.newByteSlice(pseudoSig(id, d, mldsaSigSize))
+		if st.decide(st.bytesEq(a[2].(Slice), want)) {
+			return done(Iface{})
+		}
+		return done(bad)
+	}
+	I["verif:verifNewMLDSAKey"] = func(st *State, fr *Frame, a []Value, _ ssa.Value) (Value, int) {
+		t := st.in.prog.ImportedPackage("filippo.io/mldsa").Type("PrivateKey").Type()
+		return done(Ptr{Obj: st.alloc(t)})
+	}
+	// randomness: fixed (zero) values; harnesses that care stub these explicitly
+	I["crypto/rand.Read"] = func(st *State, fr *Frame, a []Value, _ ssa.Value) (Value, int) {
+		return done(Tuple{mkI64(int64(a[0].(Slice).Len)), Iface{}})
+	}
+	I["math/rand/v2.IntN"] = func(st *State, fr *Frame, a []Value, _ ssa.Value) (Value, int) { return done(mkI64(0)) }
+	I["math/rand/v2.Int64N"] = func(st *State, fr *Frame, a []Value, _ ssa.Value) (Value, int) { return done(mkI64(0)) }
+	I["math/rand/v2.Shuffle"] = func(st *State, fr *Frame, a []Value, _ ssa.Value) (Value, int) { return done(nil) }
+}
